@@ -18,6 +18,7 @@ import traceback
 
 HOME = os.environ.get("VERIF_HOME") or os.path.dirname(os.path.dirname(os.path.abspath(__file__)))
 REPO = os.path.abspath(os.environ.get("VERIF_REPO", "/repo"))
+OUT = os.environ.get("VERIF_OUT") or HOME      # evidence/ and replays/ are written below this directory
 SEED = int(os.environ.get("VERIF_SEED", "1") or "1")
 NPROC = int(os.environ.get("VERIF_NPROC", "16"))
 MAX_SAMPLES = 10
@@ -330,7 +331,7 @@ def parallel(modname, fname, arglist, procs=None, chunksize=1):
 # --------------------------------------------------------------------------------------------------
 
 def write_replay(pid, v):
-    d = os.path.join(HOME, "replays", pid)
+    d = os.path.join(OUT, "replays", pid)
     os.makedirs(d, exist_ok=True)
     body = {"property": pid, "check": v["check"], "input": v["input"], "expected": v.get("expected"),
             "observed": v.get("observed")}
@@ -373,8 +374,8 @@ def finish(part, tier, t0, rule, assumptions, exhaustive=False, required=(), ext
         ev["notes"] = part.notes[:50]
     if part.harness_errors:
         ev["harness_errors"] = [h[:2000] for h in part.harness_errors[:20]]
-    os.makedirs(os.path.join(HOME, "evidence"), exist_ok=True)
-    with open(os.path.join(HOME, "evidence", pid + ".json"), "w") as f:
+    os.makedirs(os.path.join(OUT, "evidence"), exist_ok=True)
+    with open(os.path.join(OUT, "evidence", pid + ".json"), "w") as f:
         json.dump(ev, f, indent=1, sort_keys=True, default=repr)
         f.write("\n")
     known = part.known()
